@@ -6,8 +6,8 @@ cd /verif || exit 2
 git -C /repo diff --quiet || { echo "/repo is dirty"; exit 2; }
 git -C /repo apply "$PATCH" || { echo "patch does not apply"; exit 2; }
 # evidence written while a change is applied must not replace the evidence of the unchanged tree
-rm -rf /tmp/verif-evidence-backup; cp -r evidence /tmp/verif-evidence-backup
-trap 'git -C /repo checkout -- . ; rm -rf evidence; mv /tmp/verif-evidence-backup evidence' EXIT
+BK="$PWD/work/evidence-backup.$$"; mkdir -p work; rm -rf "$BK"; cp -r evidence "$BK"
+trap 'git -C /repo checkout -- . ; rm -rf evidence; mv "$BK" evidence' EXIT
 TIER="${TIER:-quick}"
 for id in "$@"; do
     out=$(./check "$id" "$TIER" 2>&1); rc=$?
